@@ -188,6 +188,41 @@ def kwHistory (call : Option Int → Int → Option Int × Option Int) : Option 
   | _, [] => []
   | kw, r :: rs => (call kw r).2 :: kwHistory call (call kw r).1 rs
 
+
+/-! ## §2d  the generator object as state: the cached candidate table and the source hypothesis group manager
+
+`MCMultiDatasetSignalGenerator` keeps the candidate table (with weight sum and CDF) it built in the constructor;
+`change_shg_mgr` has to rebuild it.  State: the manager in force and the manager the cached table was built from
+(managers are identified by a number; the table is a function of the manager). -/
+
+inductive GenOp where
+  | use                      -- generate_signal_events / mu2flux: reads the cached table
+  | changeMgr (m : Nat)      -- change_shg_mgr(m)
+
+structure GenSt where
+  mgr : Nat
+  cached : Nat
+
+/-- -> (state after the operation, manager whose table the operation works with) -/
+def genStep (s : GenSt) : GenOp → GenSt × Nat
+  | .use => (s, s.cached)
+  | .changeMgr m => (⟨m, m⟩, m)
+
+/-- a `change_shg_mgr` that forgets to rebuild the candidates — not the code; for the counterexample -/
+def genStepStale (s : GenSt) : GenOp → GenSt × Nat
+  | .use => (s, s.cached)
+  | .changeMgr m => (⟨m, s.cached⟩, s.cached)
+
+def genRun (step : GenSt → GenOp → GenSt × Nat) : GenSt → List GenOp → List Nat
+  | _, [] => []
+  | s, op :: ops => (step s op).2 :: genRun step (step s op).1 ops
+
+/-- specification: every operation works with the manager in force at that moment -/
+def genSpec : Nat → List GenOp → List Nat
+  | _, [] => []
+  | m, .use :: ops => m :: genSpec m ops
+  | _, .changeMgr m' :: ops => m' :: genSpec m' ops
+
 /-- round half to even on ℚ (`np.round`) -/
 def rintQ (q : Rat) : Int :=
   let f := q.floor
